@@ -7,8 +7,8 @@
    remove_connection requests of any connection) and sched over every schedule. *)
 From Coq Require Import List Arith ZArith Bool.
 Import ListNotations.
-Require Import FV.Base.PyVal FV.Gen.C05 FV.C05.Model FV.C05.Lemmas FV.C05.LemmasConc FV.C05.LemmasAct FV.C05.LemmasRef
-  FV.C05.Refuted.
+Require Import FV.Base.F64 FV.Base.PyVal FV.Gen.C05 FV.C05.Model FV.C05.ModelCb FV.C05.Lemmas FV.C05.LemmasConc FV.C05.LemmasAct
+  FV.C05.LemmasRef FV.C05.LemmasCb FV.C05.Refuted.
 
 (* the shapes read off the source, as the flags of the concurrent model *)
 Definition src_flags : flags :=
@@ -23,6 +23,7 @@ Theorem C05_source_facts :
   make_update_reads_cache = true /\ announce_update_broadcasts = true /\ omit_resolution = true /\
   error_eq_ignores_methods = true /\ update_unchanged_codes = (0, 999999999, -1)%Z /\
   activate_registers_first = true /\ snapshot_in_updateLock = true /\ broadcast_iterates_private_copy = true /\
+  callback_except_class = s_exception /\ callback_loop_shape = true /\ callback_registration_shape = true /\
   src_flags = flags_ok.
 Proof. repeat split; reflexivity. Qed.
 Print Assumptions C05_source_facts.
@@ -155,14 +156,82 @@ Theorem C05_sequential_reading_is_step : forall G s o P,
 Proof. exact step_as_actions. Qed.
 Print Assumptions C05_sequential_reading_is_step.
 
+(* ------------------------------------------------------------------ parameter callbacks (Module.addCallback /
+   registerCallbacks).  An operation comes with a script c : cbs, the tree of what the callbacks registered on its
+   parameter do in this invocation: return, raise an exception of any class, or call announceUpdate of a module (whose
+   own callbacks run in turn; <follower>.announceUpdate registered by registerCallbacks(autoupdate) included), for
+   strict callables (update_<p>(self, value)) python's own TypeError when the entry is an error.  [step_cb] is the
+   operation with the callback loop between the store and the notification; the hypothesis on the except clause is a
+   source fact (C05_source_facts). *)
+
+(* no callback behaviour suppresses, alters or duplicates the update of the operation that triggered it:
+   (1) callbacks that return or raise -- whatever they raise -- leave the operation exactly as it is without callbacks
+       (whole state: cache, clock, raising-method lists, every stream);
+   (2) for any tree of nested announcements that are not about the operation's own parameter, the cache entry of that
+       parameter and what every connection is sent about it are those of the operation without callbacks -- so
+       C05_order_no_phantom and C05_recovery_announced hold for it as they stand. *)
+Theorem C05_callbacks_cannot_suppress_update : forall G s o c,
+  callback_except_class = s_exception ->
+  (cbs_flat c = true -> step_cb G callback_except_class s (o, c) = step G s o) /\
+  (cbs_avoid (o_p o) c = true ->
+   nth_error (s_cells (step_cb G callback_except_class s (o, c))) (o_p o) = nth_error (s_cells (step G s o)) (o_p o) /\
+   forall k, plog k (o_p o) (s_log (step_cb G callback_except_class s (o, c))) = plog k (o_p o) (s_log (step G s o))).
+Proof.
+  intros G s o c ->. split; [apply step_cb_flat|]. intros AV. exact (step_cb_own G s o c AV).
+Qed.
+Print Assumptions C05_callbacks_cannot_suppress_update.
+
+(* frame of nested announcements: running any callback tree (for any entry pc handed to the callbacks, from any
+   state) lets no exception out of the loop, leaves the raising-method lists alone, and for every parameter p that no
+   announcement of the tree is about: the cache entry of p and the stream of every connection about p are untouched *)
+Theorem C05_nested_announcements_frame : forall G c pc s,
+  callback_except_class = s_exception ->
+  let r := run_cbs G callback_except_class c pc s in
+  snd r = None /\ s_heap (fst r) = s_heap s /\
+  forall p, cbs_avoid p c = true ->
+    nth_error (s_cells (fst r)) p = nth_error (s_cells s) p /\
+    forall k, plog k p (s_log (fst r)) = plog k p (s_log s).
+Proof. intros G c pc s ->. exact (run_cbs_frame G c pc s). Qed.
+Print Assumptions C05_nested_announcements_frame.
+
+(* ... and coherence itself needs no restriction on the tree (announcements about the operation's own parameter, about
+   parameters of the same module, chains of followers): after any history of operations with any callback scripts
+   every connection's newest message of every parameter it covers reports the cached entry (as in
+   C05_coherent_except_error_text, which is the case of empty scripts) *)
+Theorem C05_coherent_with_callbacks : forall G s0 ocs,
+  callback_except_class = s_exception ->
+  let s' := run_cb G callback_except_class (activate_all G s0) ocs in
+  forall k sc p P c,
+    nth_error (g_conns G) k = Some sc -> covers G sc p = true ->
+    nth_error (g_params G) p = Some P -> nth_error (s_cells s') p = Some c ->
+    exists m, replay p (msgs_of k s') = Some m /\ reports G None P p c m.
+Proof.
+  intros G s0 ocs -> s' k sc p P c Hk Hc HP Hcell. rewrite replay_latest.
+  exact (run_cb_coherent G ocs _ (activate_coherent G s0) k sc p P c Hk Hc HP Hcell).
+Qed.
+Print Assumptions C05_coherent_with_callbacks.
+
 Print Assumptions C05_refuted_error_text_stable.
 Print Assumptions C05_refuted_without_update_lock.
 Print Assumptions C05_refuted_registration_after_snapshot.
 Print Assumptions C05_refuted_snapshot_outside_lock.
 Print Assumptions C05_refuted_live_listener_set.
+Print Assumptions C05_refuted_callback_exception_escapes.
 
 (* non-vacuity: a run in which an activation races with two updates reaches a quiescent state with a registered,
    covered, served connection *)
+(* non-vacuity of the callback theorems: a script with a raising callback, a nested announcement about another
+   parameter and one about the operation's own parameter; the operation ends with both connections' streams coherent *)
+Example C05_callbacks_nonvacuous :
+  let c := CRaise false s_zerodiv (CAnn false 0 (PFloat (fmk 3 0)) None 0%Z 1%Z wcx CNil (Some s_zerodiv) CNil) in
+  let s' := step_cb wG s_exception wS ({| o_p := 0; o_k := KAssign (PFloat (fmk 1 0)); o_dt := 1%Z; o_cx := wcx |}, c) in
+  cbs_avoid 0 c = false /\ length (msgs_of 0 s') = 3 /\
+  match nth_error (s_cells s') 0, replay 0 (msgs_of 0 s') with
+  | Some e, Some m => Z.eqb (m_ts m) (c_ts e) && Z.eqb (c_ts e) 8002%Z = true
+  | _, _ => False
+  end.
+Proof. vm_compute. repeat split; reflexivity. Qed.
+
 Example C05_concurrent_nonvacuous :
   let r := crun aG flags_ok (cinit aS (subs0 aG) a_progs) [1; 1; 0; 0; 0; 0; 1; 1] in
   cs_ok r && quiescent r && quiet r && Nat.eqb (length (msgs_of 0 (cs_st r))) 2 = true.
